@@ -126,6 +126,30 @@ func (fr *Frame) invoke(cc *ssa.CallCommon, recv Val, args []Val, pos token.Pos,
 	if v, ok := fr.ioInvoke(cc, recv, args, pos, resType); ok {
 		return v
 	}
+	// a function value handed to an unknown method may be called by it: whatever the closure captured by reference
+	// (local variables, and the maps they hold) is unknown afterwards
+	for _, a := range args {
+		if a.Clo == nil {
+			continue
+		}
+		for _, b := range a.Clo.Bindings {
+			if b.Ptr != nil && b.Ptr.Root == RootCell && len(b.Ptr.Path) == 0 {
+				k := localKey(b.Ptr.Cell)
+				srt := c.cellSort[b.Ptr.Cell]
+				if mt, ok := b.Ptr.Obj.Underlying().(*types.Map); ok {
+					if cur, ok2 := fr.cur.m[k]; ok2 {
+						fr.havocMap(mt, cur)
+					}
+					continue
+				}
+				if srt != nil {
+					nv := FreshVar("captured_havoc", srt)
+					c.typeAssume(nv, b.Ptr.Obj, fr.curReach)
+					fr.cur.set(k, nv)
+				}
+			}
+		}
+	}
 	name := fmt.Sprintf("invoke.%s.%s", typeKey(cc.Value.Type()), cc.Method.Name())
 	// error.Error() etc are irrelevant; interface methods are assumed pure and state-independent (listed assumption)
 	c.opaque["interface-method:"+cc.Method.Name()]++
@@ -140,10 +164,21 @@ func (fr *Frame) invoke(cc *ssa.CallCommon, recv Val, args []Val, pos token.Pos,
 			okArgs = false
 		}
 	}
+	var res Val
 	if !okArgs {
-		return fr.opaqueResult(name, resType, nil, false, nil)
+		res = fr.opaqueResult(name, resType, nil, false, nil)
+	} else {
+		res = fr.opaqueResult(name, resType, ts, false, nil)
 	}
-	return fr.opaqueResult(name, resType, ts, false, nil)
+	// flag ifacenonnil: interface values returned by interface methods are not nil (e.g. the distance values a
+	// distanceTarget hands out); an assumption of the unit, listed in its notes
+	if c.contract != nil && c.contract.Flags["ifacenonnil"] != "" && res.T != nil {
+		if _, isIface := resType.Underlying().(*types.Interface); isIface {
+			c.assume(Not(Eq(DataField_(res.T, 0), BVLit(0, 32))))
+			c.note("flag ifacenonnil: interface values returned by interface methods are assumed non-nil")
+		}
+	}
+	return res
 }
 
 // opaqueResult: deterministic (UF of args) when ts != nil, else fresh.
